@@ -170,6 +170,16 @@ class Check:
                         self.cov["discharged"] += len(declared)
                 else:
                     self.cov["discharged"] += len([d for d in declared if d not in bad_names]) if bad_names and "?" not in bad_names else 0
+        if ok and self.tier == "thorough":
+            # independent re-check of the compiled property modules with the toolchain's leanchecker
+            for mod in modules:
+                rc, o4, dt = sh(["lake", "env", "leanchecker", mod], cwd=LEAN, timeout=3600)
+                self.cov["stages"]["leanchecker_s"] = round(self.cov["stages"].get("leanchecker_s", 0) + dt, 2)
+                if rc != 0:
+                    all_ok = False
+                    self.problems.append({"kind": "proof", "detail": "leanchecker rejected " + mod, "names": ["leanchecker " + mod],
+                                          "errors": o4[-1500:]})
+            self.cov["leanchecker"] = "passed" if all_ok else "failed"
         files = []
         for mod in modules:
             files.append(os.path.join(LEAN, mod.replace(".", "/") + ".lean"))
@@ -282,6 +292,27 @@ class Check:
         if not os.path.exists(p):
             return []
         return [k for k in json.load(open(p)).get("findings", []) if k.get("property") == self.pid and k.get("status") == "known"]
+
+    def add_history_witness(self, kind, request, detail, transcript, line_no):
+        """witness inside a stateful transcript: the replay is the transcript prefix up to and including that line"""
+        before = len(self.problems)
+        self.add_witness(kind, request, detail)
+        if len(self.problems) > before and transcript and line_no:
+            dst = os.path.join(ROOT, "replays", "%s-%s-history-%d.tr" % (self.pid, self.tier, len([p for p in self.problems if p.get("history")]) + 1))
+            try:
+                n = 0
+                with open(transcript) as fin, open(dst, "w") as fout:
+                    for l in fin:
+                        if l.startswith("#"):
+                            continue
+                        n += 1
+                        fout.write(l)
+                        if n >= line_no:
+                            break
+                self.problems[-1]["history"] = dst
+                self.problems[-1]["history_note"] = "requests of the run up to the failing one; replay: ./check %s --replay %s" % (self.pid, dst)
+            except OSError:
+                pass
 
     def add_witness(self, kind, request, detail):
         """A concrete failing input found by the oracle (spec / monitor evaluated on the implementation)."""
